@@ -3,5 +3,6 @@ SPECIFICATION Spec
 INVARIANT ReadsBackTheSame
 INVARIANT NumbersSurvive
 INVARIANT TokensSane
+INVARIANT MPSReadsBackTheSame
 INVARIANT NamesRepaired
 CHECK_DEADLOCK FALSE
